@@ -26,10 +26,11 @@ MUTANTS = [
      "            if not self.cycles:\n                self._reset(cell_or_range)\n",
      "            if not self.cycles:\n                pass\n",
      'set_value skips _reset'),
-    ('M02', 'C01', 'excelcompiler.py',
+    ('M02', 'C09', 'excelcompiler.py',
      "                if (child_cell.value is not None or child_cell.empty_result or\n                        child_cell.address.is_range):\n",
      "                if (child_cell.value is not None or child_cell.empty_result):\n",
-     '_reset does not look behind range nodes without a value (D20 reverted)'),
+     '_reset does not look behind range nodes without a value (D20 reverted; since D38 only a '
+     'failure inside such a range leaves one without a value, hence C09)'),
     ('M03', 'C01', 'excelcompiler.py',
      "            return None if formula and self._inputs_changed else value\n",
      "            return value\n",
@@ -101,8 +102,8 @@ MUTANTS = [
      "        range_todos = list(self.range_todos)\n",
      'pending range list never cleared (also not after a failure)'),
     ('M17', 'C09', 'excelcompiler.py',
-     "                        if isinstance(cell, _CycleCell):\n                            # a failed calculation is not in progress anymore\n                            cell.wip = False\n",
-     "                        pass\n",
+     "                            cell.formula, cse_array_address=cse_array_address)\n                    except Exception:\n                        if isinstance(cell, _CycleCell):\n                            # a failed calculation is not in progress anymore\n                            cell.wip = False\n",
+     "                            cell.formula, cse_array_address=cse_array_address)\n                    except Exception:\n                        pass\n",
      'work-in-progress flag not cleared after a failure (D7 reverted)'),
     ('M18', 'C09', 'excelformula.py',
      "                del error_messages[:]\n                capture_error_state(exc, msg)\n",
@@ -128,10 +129,6 @@ MUTANTS = [
      "                self.dep_graph.add_edge(\n                    self.cell_map[precedent_address.address], dependant)\n",
      "                if not (precedent_address.is_range and dependant.address.is_range):\n                    self.dep_graph.add_edge(\n                        self.cell_map[precedent_address.address], dependant)\n",
      'no edge from a range precedent to an array-formula range'),
-    ('M23', 'C06', 'excelcompiler.py',
-     "            if self.cycles and cell_range.formula:\n",
-     "            if self.cycles:\n",
-     'plain ranges cached per pass again (stale re-entrant read)'),
     ('M24', 'C01', 'excelcompiler.py',
      "                add_node_to_graph(ref_cell)\n                self.range_todos.append(str(address))\n",
      "                self.range_todos.append(str(address))\n",
